@@ -213,6 +213,9 @@ struct EnfCase {
     /// tonic client sides only: the call is polled once where it was made and then moved to another
     /// task (tokio::spawn), which awaits it: the deadline must wake the task that holds the call NOW
     move_task: bool,
+    /// bare client only: the request is labelled `application/grpc+proto` (a legal content-type
+    /// that tonic's own client never sends); deadlines apply to it like to any gRPC request
+    subtype: bool,
 }
 
 struct SlowEcho {
@@ -387,7 +390,7 @@ fn enf_run(c: &EnfCase) -> (EnfOutcome, u64) {
                 tokio::spawn(async move {
                     let _ = connection.await;
                 });
-                let mut b = http::Request::builder().method("POST").uri("http://c09.test:1/fx.Echo/Unary").header("content-type", "application/grpc").header("te", "trailers");
+                let mut b = http::Request::builder().method("POST").uri("http://c09.test:1/fx.Echo/Unary").header("content-type", if c.subtype { "application/grpc+proto" } else { "application/grpc" }).header("te", "trailers");
                 if let Some(ms) = c.caller_ms {
                     b = b.header("grpc-timeout", format!("{ms}m"));
                 }
@@ -482,7 +485,7 @@ fn enf_cases(tier: Tier) -> Vec<EnfCase> {
                     n += 1;
                     let chops: Vec<usize> = if tier == Tier::Thorough { vec![0, 2, 3] } else { vec![[0, 2, 3][n % 3]] };
                     for chop in chops {
-                        out.push(EnfCase { side, malformed: None, caller_ms, configured_ms, latency_ms, chop, prior_caller_ms: None, idle_gap_ms: None, move_task: false });
+                        out.push(EnfCase { side, malformed: None, caller_ms, configured_ms, latency_ms, chop, prior_caller_ms: None, idle_gap_ms: None, move_task: false, subtype: false });
                     }
                 }
             }
@@ -492,11 +495,11 @@ fn enf_cases(tier: Tier) -> Vec<EnfCase> {
     for side in [Side::Server, Side::Client] {
         for configured_ms in [None, Some(50u64)] {
             for latency_ms in [10u64, 300] {
-                out.push(EnfCase { side, malformed: None, caller_ms: Some(0), configured_ms, latency_ms, chop: 0, prior_caller_ms: None, idle_gap_ms: None, move_task: false });
+                out.push(EnfCase { side, malformed: None, caller_ms: Some(0), configured_ms, latency_ms, chop: 0, prior_caller_ms: None, idle_gap_ms: None, move_task: false, subtype: false });
             }
         }
         for latency_ms in [10u64, 300] {
-            out.push(EnfCase { side, malformed: None, caller_ms: Some(200), configured_ms: Some(0), latency_ms, chop: 0, prior_caller_ms: None, idle_gap_ms: None, move_task: false });
+            out.push(EnfCase { side, malformed: None, caller_ms: Some(200), configured_ms: Some(0), latency_ms, chop: 0, prior_caller_ms: None, idle_gap_ms: None, move_task: false, subtype: false });
         }
     }
     // a malformed caller value is ignored: the configured timeout alone decides
@@ -504,7 +507,7 @@ fn enf_cases(tier: Tier) -> Vec<EnfCase> {
         for bad in ["82f", "+5S", "S", "123456789S", "5 S", "1e3m"] {
             for configured_ms in [None, Some(50u64)] {
                 for latency_ms in [10u64, 300] {
-                    out.push(EnfCase { side, malformed: Some(bad), caller_ms: None, configured_ms, latency_ms, chop: 0, prior_caller_ms: None, idle_gap_ms: None, move_task: false });
+                    out.push(EnfCase { side, malformed: Some(bad), caller_ms: None, configured_ms, latency_ms, chop: 0, prior_caller_ms: None, idle_gap_ms: None, move_task: false, subtype: false });
                 }
             }
         }
@@ -518,7 +521,7 @@ fn enf_cases(tier: Tier) -> Vec<EnfCase> {
                         if side == Side::Both && configured_ms.is_some() {
                             continue;
                         }
-                        out.push(EnfCase { side, malformed: None, caller_ms, configured_ms, latency_ms, chop: 0, prior_caller_ms: Some(prior), idle_gap_ms: None, move_task: false });
+                        out.push(EnfCase { side, malformed: None, caller_ms, configured_ms, latency_ms, chop: 0, prior_caller_ms: Some(prior), idle_gap_ms: None, move_task: false, subtype: false });
                     }
                 }
             }
@@ -527,22 +530,28 @@ fn enf_cases(tier: Tier) -> Vec<EnfCase> {
     // a call that is polled once and then handed to another task
     for (caller_ms, configured_ms) in [(None, Some(50u64)), (Some(50u64), None), (Some(200u64), Some(50u64)), (None, None)] {
         for latency_ms in [10u64, 100, 300] {
-            out.push(EnfCase { side: Side::Client, malformed: None, caller_ms, configured_ms, latency_ms, chop: 0, prior_caller_ms: None, idle_gap_ms: None, move_task: true });
+            out.push(EnfCase { side: Side::Client, malformed: None, caller_ms, configured_ms, latency_ms, chop: 0, prior_caller_ms: None, idle_gap_ms: None, move_task: true, subtype: false });
         }
     }
     // a caller that polls once and then stays away: the deadline runs from the call
     for gap in [30u64, 150, 400] {
         for (caller_ms, configured_ms) in [(None, Some(50u64)), (Some(50u64), None), (Some(200u64), Some(50u64)), (None, None)] {
             for latency_ms in [10u64, 100, 300] {
-                out.push(EnfCase { side: Side::Client, malformed: None, caller_ms, configured_ms, latency_ms, chop: 0, prior_caller_ms: None, idle_gap_ms: Some(gap), move_task: false });
+                out.push(EnfCase { side: Side::Client, malformed: None, caller_ms, configured_ms, latency_ms, chop: 0, prior_caller_ms: None, idle_gap_ms: Some(gap), move_task: false, subtype: false });
             }
         }
     }
     for caller_ms in [None, Some(50u64), Some(200)] {
         for latency_ms in [10u64, 100, 300] {
-            out.push(EnfCase { side: Side::Both, malformed: None, caller_ms, configured_ms: None, latency_ms, chop: 0, prior_caller_ms: None, idle_gap_ms: None, move_task: false });
+            out.push(EnfCase { side: Side::Both, malformed: None, caller_ms, configured_ms: None, latency_ms, chop: 0, prior_caller_ms: None, idle_gap_ms: None, move_task: false, subtype: false });
         }
     }
+    // every bare-client case once more under the content-type `application/grpc+proto`
+    let sub: Vec<EnfCase> = out.iter().filter(|c| c.side == Side::Server).cloned().map(|mut c| {
+        c.subtype = true;
+        c
+    }).collect();
+    out.extend(sub);
     out
 }
 
